@@ -411,3 +411,26 @@ package hotline
 //@ func sendBanMessage(rwc io.Writer, message string)
 //@   before call io.Copy assert !has_method(arg1, "WriteTo")
 //@   requires len(message) <= 30000
+
+// ---------------------------------------------------------------------------------
+// C04 / C17: the login gate.  Requests are dispatched only after a valid handshake and a
+// successful Authenticate; the ban check sits between handshake and login.
+
+//@ func (s *Server) handleNewConnection(ctx context.Context, rwc io.ReadWriteCloser, remoteAddr string) (err error)
+//@   before call (*hotline.ClientConn).handleTransaction assert callres("hotline.performHandshake") == nil && callres("(*hotline.ClientConn).Authenticate")
+//@   before call (*hotline.ClientConn).Authenticate assert callres("hotline.performHandshake") == nil
+//@   before call (*hotline.ClientConn).Authenticate assert !callres("(hotline.BanMgr).IsBanned", 0) || (callres("(hotline.BanMgr).IsBanned", 1) != nil && !callres("(time.Time).Before"))
+//@   before call (hotline.BanMgr).IsBanned assert callres("hotline.performHandshake") == nil
+//@   before call io.Copy assert !has_method(arg1, "WriteTo")
+
+//@ func (s *Server) handleNewConnection(ctx context.Context, rwc io.ReadWriteCloser, remoteAddr string) (err error)
+//@   before call (*hotline.ClientConn).Authenticate assert arg1 == callres("(*hotline.Field).DecodeObfuscatedString") || (callres("(*hotline.Field).DecodeObfuscatedString") == "" && arg1 == "guest")
+//@   before call (hotline.ClientManager).Add assert callres("(*hotline.ClientConn).Authenticate")
+
+// C04: a login succeeds only for an existing account whose stored hash matches the password.
+
+//@ func (cc *ClientConn) Authenticate(login string, password []byte) (ok bool)
+//@   ensures ok ==> callres("(hotline.AccountManager).Get") != nil
+//@   ensures ok == (callres("(hotline.AccountManager).Get") != nil && callres("golang.org/x/crypto/bcrypt.CompareHashAndPassword") == nil)
+//@   before call (hotline.AccountManager).Get assert arg1 == login
+//@   before call golang.org/x/crypto/bcrypt.CompareHashAndPassword assert same(arg1, password)
